@@ -227,6 +227,23 @@ func IteByte(c bool, a, b byte) byte {
 // Fork returns c; under the engine the path forks on c (never if-converted), so the result is concrete.
 func Fork(c bool) bool { return c }
 
+// RegexDiffWitness: under the engine the pattern of re (with MatchString search semantics) is compared, as
+// a regular language, with the SMT-LIB RegLan grammar; if they differ a witness string is returned.
+// Natively the recorded witness is replayed (random mode: no witness).
+func RegexDiffWitness(re interface{ MatchString(string) bool }, grammar string) (string, bool) {
+	if st.rnd != nil {
+		st.recorded = append(st.recorded, draw{Kind: "bool", W: 0, Val: "0"}, draw{Kind: "choice", W: 64, Val: "0"})
+		return "", false
+	}
+	differ := next("bool", 0) != 0
+	n := int(next("choice", 64))
+	b := make([]byte, n)
+	for i := range b {
+		b[i] = byte(next("u8", 8))
+	}
+	return string(b), differ
+}
+
 // Symbolic reports whether the harness runs under the symbolic engine with symbolic draws.
 func Symbolic() bool { return false }
 
